@@ -187,7 +187,7 @@ fn doc_tokens(thorough: bool) -> Vec<Vec<RTok>> {
     docs.iter().map(|d| d.doc.tokens()).collect()
 }
 
-pub fn families(thorough: bool) -> Vec<Family> {
+pub fn families(thorough: bool, deep: bool) -> Vec<Family> {
     let mut f: Vec<Family> = Vec::new();
     let str_cfgs = all_configs(false);
     let one = vec![Config { strict: false, spec: 0, entry: Entry::Str }];
@@ -211,7 +211,7 @@ pub fn families(thorough: bool) -> Vec<Family> {
     });
     let alpha: Vec<String> = BYTE_ALPHABET.iter().map(|b| unsafe { String::from_utf8_unchecked(vec![*b]) }).collect();
     // (raw bytes: built as byte vectors, not strings)
-    let maxl = if thorough { 5 } else { 4 };
+    let maxl = if deep { 6 } else if thorough { 5 } else { 4 };
     {
         let n = BYTE_ALPHABET.len();
         let mut count = 0usize;
@@ -244,7 +244,7 @@ pub fn families(thorough: bool) -> Vec<Family> {
     }
     // (2) token soups
     let units: Vec<String> = SOUP_UNITS.iter().map(|s| s.to_string()).collect();
-    let k = if thorough { 4 } else { 3 };
+    let k = if deep { 5 } else if thorough { 4 } else { 3 };
     f.push(seq_family(&format!("soup<={k} spaced"), units.clone(), k, " ", None, str_cfgs.clone()));
     f.push(seq_family(&format!("soup<={k} unspaced"), units.clone(), k, "", None, str_cfgs.clone()));
     f.push(seq_family(&format!("soup<={} spaced, one config", k + 1), units.clone(), k + 1, " ", None, one.clone()));
@@ -386,7 +386,7 @@ pub fn families(thorough: bool) -> Vec<Family> {
     }
     // (5) A2ML soups, as in-file A2ML and as built-in specification
     let aunits: Vec<String> = A2ML_UNITS.iter().map(|s| s.to_string()).collect();
-    let ak = if thorough { 5 } else { 4 };
+    let ak = if deep { 6 } else if thorough { 5 } else { 4 };
     let pre_a = format!("{pre}/begin A2ML ");
     let post_a = format!(" /end A2ML /begin IF_DATA T 1 /end IF_DATA{post}");
     f.push(seq_family(&format!("a2ml-soup<={} in file", ak - 1), aunits.clone(), ak - 1, " ", Some((pre_a.clone(), post_a.clone())), two.clone()));
@@ -439,7 +439,7 @@ pub fn families(thorough: bool) -> Vec<Family> {
             "/include inc_none.a2l".to_string(),
         ];
         let n = units.len();
-        let max_len = if thorough { 4 } else { 3 };
+        let max_len = if deep { 5 } else if thorough { 4 } else { 3 };
         let mut count = 0usize;
         let mut offsets = vec![0usize];
         let mut pow = 1usize;
@@ -546,15 +546,22 @@ fn eval_family_case(fam: &Family, i: usize, dir: &std::path::Path, slot: usize) 
 pub fn run(tier: &str) -> Run {
     let mut run = Run::new("C03", tier);
     let tier_s = tier.to_string();
-    let fams = families(crate::util::wide(tier));
+    let fams = families(crate::util::wide(tier), crate::util::deep(tier));
     let dir = scratch_dir();
     let mut fam_stats = serde_json::Map::new();
     for (fi, fam) in fams.iter().enumerate() {
         let dir2 = dir.clone();
         let tier2 = tier_s.clone();
+        let mut ok = 0u64;
+        let mut err = 0u64;
+        let mut other = 0u64;
+        // (large families are evaluated in slices so that the result vector stays small)
+        const SLICE: usize = 4_000_000;
+        for base in (0..fam.count).step_by(SLICE) {
         let res = par_map(
-            fam.count,
+            SLICE.min(fam.count - base),
             &|i| {
+                let i = i + base;
                 // one scratch file per worker thread is enough: keyed by thread id hash
                 let slot = {
                     use std::hash::{Hash, Hasher};
@@ -565,6 +572,7 @@ pub fn run(tier: &str) -> Run {
                 eval_family_case(fam, i, &dir2, slot)
             },
             &|i| {
+                let i = i + base;
                 let bytes = (fam.gen)(i);
                 let text = String::from_utf8_lossy(&bytes).into_owned();
                 vcore::report::emit_hang_and_exit(
@@ -576,10 +584,8 @@ pub fn run(tier: &str) -> Run {
                 );
             },
         );
-        let mut ok = 0u64;
-        let mut err = 0u64;
-        let mut other = 0u64;
         for (i, rs) in res.into_iter().enumerate() {
+            let i = i + base;
             for (ci, r) in rs {
                 run.evaluations += 1;
                 run.transitions += 1;
@@ -605,6 +611,7 @@ pub fn run(tier: &str) -> Run {
                 let bytes = (fam.gen)(i);
                 run.sample(json!({"family": fam.name, "input": short(&String::from_utf8_lossy(&bytes), 200)}));
             }
+        }
         }
         let h = fnv1a(fam.name.as_bytes());
         for i in 0..fam.count.min(u32::MAX as usize) {
@@ -638,7 +645,7 @@ pub fn run(tier: &str) -> Run {
 pub fn replay(v: &Value) -> Result<String, String> {
     let bytes: Vec<u8> = v["bytes"].as_array().ok_or("no bytes")?.iter().map(|b| b.as_u64().unwrap_or(0) as u8).collect();
     let fi = v["family"].as_u64().unwrap_or(0) as usize;
-    let fams = families(true);
+    let fams = families(true, true);
     let fam = fams.get(fi).ok_or("unknown family")?;
     let dir = scratch_dir();
     let mut res = Ok("all configurations return".to_string());
